@@ -76,7 +76,7 @@ var tiers = map[string]tierCfg{
 	"C19": {QuickRuns: 48000, ThoroughRuns: 1600000, Workers: 16},
 	"C10": {QuickRuns: 3200, ThoroughRuns: 200000, Workers: 16, Enum: true, EnumQuickStride: 7},
 	"C11": {QuickRuns: 3200, ThoroughRuns: 200000, Workers: 16, Enum: true, EnumQuickStride: 7},
-	"C06": {QuickRuns: 16000, ThoroughRuns: 400000, Workers: 16, Race: true, RaceQuick: 400, RaceThorough: 20000},
+	"C06": {QuickRuns: 16000, ThoroughRuns: 400000, Workers: 16, Race: true, RaceQuick: 2000, RaceThorough: 40000},
 	"C07": {QuickRuns: 6400, ThoroughRuns: 300000, Workers: 16, Race: true, RaceQuick: 400, RaceThorough: 20000},
 }
 
